@@ -20,19 +20,20 @@ def harnesses(tier, seed):
         for ty in ("MF", "FMF", "FLF"):
             cvs = count_vectors(ty, 2) if ty != "FLF" else [(1, 2), (2, 0), (0, 1), (1, 1)]
             # the flat_map kernel goes through std's FlatMap + Vec::from_iter, ~4 min per query: fewer shapes in quick
-            ots = owner_tables(2, 2, 1) if ty != "FLF" else [[1, 0], [0, 0]]
+            ots = owner_tables(2, 2, 1) if ty != "FLF" else [[1, 0]]
             if ty == "FLF":
                 cvs = [(1, 1), (2, 0)]
             for owners in ots:
                 for k in cvs:
                     hs.append(collect_harness("c07", "collect_x", ty, "slice", 2, 2, 1, owners, k))
-            for owners in (owner_tables(3, 2, 2) if ty != "FLF" else [[1, 1, 0]]):
+            for owners in (owner_tables(3, 2, 2) if ty != "FLF" else []):
                 for k in (INTERESTING3[ty][:2] if ty != "FLF" else [(1, 0, 1)]):
                     hs.append(collect_harness("c07", "collect_x", ty, "slice", 3, 2, 2, owners, k))
             hs.append(collect_harness("c07", "collect_x", ty, "slice", 2, 1, 1, None, cvs[-1]))
             # fewer chunks than workers: one chunk of 2, held by the first or by the last worker
             for owners in ([0, 0], [1, 1]):
-                hs.append(collect_harness("c07", "collect_x", ty, "slice", 2, 2, 2, owners, (1, 1)))
+                if ty != "FLF":
+                    hs.append(collect_harness("c07", "collect_x", ty, "slice", 2, 2, 2, owners, (1, 1)))
         for owners in owner_tables(2, 2, 1):
             hs.append(collect_harness("c07", "collect_x", "M", "slice", 2, 2, 1, owners, (1, 1)))
         for owners in ([0, 0], [1, 1]):
